@@ -38,6 +38,8 @@ type world struct {
 	pops     []crypto.Signature
 	kmac     hash.Hasher // shared BLS hasher
 	rawKmac  hash.Hasher // shared plain KMAC128 instance
+	kmacKey  []byte
+	kmacSize int
 	aggSig   crypto.Signature
 	manySig  crypto.Signature
 	spock    []crypto.Signature
@@ -63,7 +65,8 @@ func setup(rnd *choice.Src) (*world, error) {
 		}
 	}()
 	w.kmac = crypto.NewExpandMsgXOFKMAC128("roconc-tag")
-	w.rawKmac, err = hash.NewKMAC_128(rnd.Bytes(16), []byte("custom"), 32+rnd.Intn(100))
+	w.kmacKey, w.kmacSize = rnd.Bytes(16), 32+rnd.Intn(100)
+	w.rawKmac, err = hash.NewKMAC_128(w.kmacKey, []byte("custom"), w.kmacSize)
 	must(err)
 	nk := 3
 	for i := 0; i < 4; i++ {
@@ -113,6 +116,55 @@ func setup(rnd *choice.Src) (*world, error) {
 		}
 	}
 	return w, err
+}
+
+func cp(b []byte) []byte { return append([]byte(nil), b...) }
+
+func cpSigs(l []crypto.Signature) []crypto.Signature {
+	o := make([]crypto.Signature, len(l))
+	for i := range l {
+		o[i] = cp(l[i])
+	}
+	return o
+}
+
+// fresh builds a second world with the same values but FRESH objects: keys decoded from their
+// encodings (never used before, so lazily filled caches inside key objects are still empty),
+// new hasher instances, copied byte slices. The concurrent run uses the fresh world; the
+// sequential baseline uses the original one.
+func (a *world) fresh() (w *world, err error) {
+	defer func() {
+		if r := recover(); r != nil {
+			err = fmt.Errorf("%v", r)
+		}
+	}()
+	w = &world{kmacKey: a.kmacKey, kmacSize: a.kmacSize}
+	w.kmac = crypto.NewExpandMsgXOFKMAC128("roconc-tag")
+	w.rawKmac, err = hash.NewKMAC_128(a.kmacKey, []byte("custom"), a.kmacSize)
+	must(err)
+	for _, m := range a.msgs {
+		w.msgs = append(w.msgs, cp(m))
+	}
+	for i := range a.sks {
+		sk, err := crypto.DecodePrivateKey(crypto.BLSBLS12381, a.sks[i].Encode())
+		must(err)
+		pk, err := crypto.DecodePublicKey(crypto.BLSBLS12381, a.pks[i].Encode())
+		must(err)
+		w.sks = append(w.sks, sk)
+		w.pks = append(w.pks, pk)
+		w.sigs = append(w.sigs, cpSigs(a.sigs[i]))
+	}
+	w.pops, w.spock, w.batchBad = cpSigs(a.pops), cpSigs(a.spock), cpSigs(a.batchBad)
+	w.aggSig, w.manySig = cp(a.aggSig), cp(a.manySig)
+	for k, alg := range []crypto.SigningAlgorithm{crypto.ECDSAP256, crypto.ECDSASecp256k1} {
+		sk, err := crypto.DecodePrivateKey(alg, a.esk[k].Encode())
+		must(err)
+		pk, err := crypto.DecodePublicKey(alg, a.epk[k].Encode())
+		must(err)
+		w.esk[k], w.epk[k] = sk, pk
+		w.esig[k] = cpSigs(a.esig[k])
+	}
+	return w, nil
 }
 
 var opNames = []string{"kmac.ComputeHash", "bls.Sign", "bls.Verify", "bls.VerifyWrong", "BLSVerifyPOP", "SPOCKVerify", "VerifyOneMessage", "VerifyManyMessages", "BatchVerify", "ecdsa.Sign", "ecdsa.Verify", "blshasher.ComputeHash"}
@@ -231,9 +283,14 @@ func (Engine) Run(c *choice.Src, o engine.Opt) (out engine.Out) {
 		out.Fingerprint = engine.HashStrings(fp...)
 	}()
 	rnd := c.Sub("inputs")
-	w, err := setup(rnd)
+	ref, err := setup(rnd)
 	if err != nil {
 		viol("setup", "setup", "%v", err)
+		return
+	}
+	w, err := ref.fresh()
+	if err != nil {
+		viol("setup", "setup.fresh", "%v", err)
 		return
 	}
 	// workload mix (swarm): a subset of the operation kinds is enabled per run
@@ -262,11 +319,10 @@ func (Engine) Run(c *choice.Src, o engine.Opt) (out engine.Out) {
 	for ti := range plans {
 		for _, p := range plans[ti] {
 			if _, ok := base[p]; !ok {
-				base[p] = w.exec(p, baseHasher)
+				base[p] = ref.exec(p, baseHasher) // on the reference world: the shared objects stay untouched until the run
 			}
 		}
 	}
-	before := w.snapshot()
 	// the concurrent run
 	results := make([][]string, ntasks)
 	var fns []func()
@@ -312,8 +368,8 @@ func (Engine) Run(c *choice.Src, o engine.Opt) (out engine.Out) {
 			}
 		}
 	}
-	if after := w.snapshot(); after != before {
-		viol("unchanged", "argument-or-object-modified", "messages, signatures, key encodings or shared hasher outputs differ after the concurrent run")
+	if after, want := w.snapshot(), ref.snapshot(); after != want {
+		viol("unchanged", "argument-or-object-modified", "messages, signatures, key encodings or shared hasher outputs after the concurrent run differ from those of the untouched reference objects")
 	}
 	out.Probes["runs_all_results_equal"]++
 	return
